@@ -13,7 +13,7 @@ Definition case := (nat * dialect * universe * option doc)%type.
 Definition cid (c : case) : nat := fst (fst (fst c)).
 (* the model's verdict on the command, with the modelled fragment of the library validators *)
 Definition model_out (v : dialect) (u : universe) : option doc :=
-  match cmd (lib_model_ok_v v) v u with Wrote d => Some d | Failed => None end.
+  match cmd lib_model_ok (lib_model_ok_v V31) v u with Wrote d => Some d | Failed => None end.
 (* C07 projection: components.schemas *)
 Definition agrees_comps (c : case) : bool :=
   let '(_, v, u, o) := c in
@@ -35,7 +35,7 @@ Definition c08_detail (c : case) : list nat :=
   let '(_, v, u, o) := c in match o with Some d => failed_clauses (u_cfg u) d | None => [] end.
 (* the decidable hypotheses of the C07 / C08 theorems, for the evidence *)
 Definition hyp_well_linked (c : case) : bool := let '(_, v, u, o) := c in well_linked_b v u.
-Definition hyp_unique_quiet (c : case) : bool := let '(_, v, u, o) := c in unique_type_names_b u && quiet u.
+Definition hyp_unique_quiet (c : case) : bool := let '(_, v, u, o) := c in unique_type_names_b u.
 Definition model_none (c : case) : bool :=
   let '(_, v, u, o) := c in match model_out v u with None => true | Some _ => false end.
 """
